@@ -139,6 +139,54 @@ def _positionalise(tree, sigs):
     return tree
 
 
+def _always_exits_block(body):
+    if not body:
+        return False
+    last = body[-1]
+    if isinstance(last, (ast.Return, ast.Raise, ast.Continue, ast.Break)):
+        return True
+    if isinstance(last, ast.If) and last.orelse:
+        return _always_exits_block(last.body) and _always_exits_block(last.orelse)
+    return False
+
+
+def _flatten_else_after_exit(tree):
+    """N3: `if c: ...exit` `else: REST` becomes `if c: ...exit` followed by REST (the "no-else-return" style)."""
+
+    def fix(body):
+        out = []
+        for st in body:
+            out.append(st)
+            if isinstance(st, ast.If):
+                cur = st
+                # peel: if the body exits, its else-branch is just what follows
+                while isinstance(cur, ast.If) and cur.orelse and _always_exits_block(cur.body):
+                    tail = cur.orelse
+                    cur.orelse = []
+                    out.extend(tail)
+                    cur = tail[0] if len(tail) == 1 and isinstance(tail[0], ast.If) else None
+        return out
+
+    def visit(node):
+        for f in ("body", "orelse", "finalbody"):
+            seq = getattr(node, f, None)
+            if isinstance(seq, list) and seq and isinstance(seq[0], ast.stmt):
+                new = fix(seq)
+                # repeat until stable (hoisted statements may themselves be ifs with exiting bodies)
+                while len(new) != len(seq):
+                    seq, new = new, fix(new)
+                setattr(node, f, new)
+        if isinstance(node, ast.Try):
+            for h in node.handlers:
+                h.body = fix(h.body)
+        # children are enumerated after the rewrite, so hoisted statements are visited too
+        for ch in ast.iter_child_nodes(node):
+            visit(ch)
+
+    visit(tree)
+    return tree
+
+
 def normalise(tree, sigs=None):
     """Canonical form applied to every analysed module before any rule sees it, so that rules do not depend on a
     maintainer's choice between equivalent spellings:
@@ -147,8 +195,11 @@ def normalise(tree, sigs=None):
         `return E` (an "extract variable" refactoring of a return value is invisible to the rules).
     N2  a keyword argument naming the callee's next positional parameter becomes positional, when every definition in
         the repository with the callee's simple name agrees on that position (`f(a, y=b)` is `f(a, b)` for every rule).
+    N3  `if c: ...exit` `else: REST` is `if c: ...exit` followed by REST (an else after return / raise / continue / break is
+        hoisted, also along elif chains), so the early-exit style and the if/else style are one shape.
     """
     _positionalise(tree, SIGS if sigs is None else sigs)
+    _flatten_else_after_exit(tree)
 
     def occurrences(fn):
         cnt = {}
